@@ -275,6 +275,19 @@ def correspondence(ctx, model_ok=True):
                                      "comparisons failed, then the first content that failed)" % n_d, "program": vol[i],
                              "observed": st if st else r, "signature": "volume routes: " + str(st.get("printed", st.get("status")))[:80],
                              "failing_input": True})
+    # (d') the two dimensions the volume runs above leave at small values: the LENGTH of a content (every power of two +-1 up to 2^20 bytes,
+    # each built by several routes) and the number of strings ALIVE at once (the table holds only live strings, so the runs above never
+    # grow it far: here everything created is kept, and at each decade up to the top size fresh contents are built by several routes and
+    # the kept ones are built again)
+    lv = length_programs() + live_volume_programs(1000000 if ctx.thorough else 200000)
+    lv_lines = [vlib.case_line("lv%d" % i, ["S:" + vlib.hx(p_)], steps=2000000000) for i, p_ in enumerate(lv)]
+    for p_, r in zip(lv, vlib.run_real(ctx.runner, lv_lines)):
+        st = (r.get("steps") or [{}])[0]
+        if st.get("status") != "ok" or st.get("printed") != ["0"]:
+            failures.append({"what": "contents of every length / contents built while many strings are alive: some content built by two routes "
+                                     "is not one string (the program prints the number of failed comparisons, then the first length or count at which one failed)",
+                             "program": p_, "observed": st if st else r,
+                             "signature": "length/live routes: " + str(st.get("printed", st.get("status")))[:80], "failing_input": True})
     # (e) names whose real hashes collide in the low 32 / 24 / 16 / 8 bits, used back to back as methods, static methods, fields, globals,
     # map keys of one object: each use selects its own entry
     cps = collision_programs()
@@ -289,7 +302,8 @@ def correspondence(ctx, model_ok=True):
                              "signature": "colliding names: " + name.split(":")[0], "failing_input": True})
     cov = {
         "colliding_name_pairs": {str(k): v for k, v in colliding_names().items()},
-        "evaluations": len(seqs) + n_b + n_c + len(vol) + len(cps),
+        "evaluations": len(seqs) + n_b + n_c + len(vol) + len(cps) + len(lv),
+        "length_and_live_volume_programs": len(lv),
         "volume_contents": n_d * len(vol),
         "distinct_nontrivial": len(nontrivial),
         "rule": "op sequences over a random hash function H of 6 profiles (special bit patterns - zero/ones halves, single bits, 0 -, identical full hashes, equal low 12 bits, "
@@ -396,6 +410,63 @@ def volume_programs(n):
                "print(bad); if first != nil { print(first); }"]
         out.append("\n".join(src))
     return out
+
+
+def length_programs():
+    """Contents of 1 .. 2^20 bytes (every power of two and its neighbours), ASCII and multi-byte, each built by doubling from two different
+    seeds, by joining its halves, by interpolation and by replace: one string."""
+    out = []
+    for piece, plen in (("x", 1), ("\u00e9", 2), ("ab", 2)):
+        lens = sorted(set(n for k in range(0, 21) for n in ((1 << k) - 1, 1 << k, (1 << k) + 1) if n > 0))
+        if len(piece.encode()) > 1:
+            lens = sorted(set(n - n % 2 for n in lens if n >= 2))   # slices of a multi-byte content end on character boundaries
+        src = ["fn dbl(seed, n) { var s = seed; while s.len() < n { s = s + s; } return s[0..n]; }",
+               "var bad = 0; var first = nil;",
+               "for n in [%s] {" % ", ".join(str(n) for n in lens),
+               "  var a = dbl(%s, n);" % yl_str(piece),
+               "  var b = dbl(%s, n);" % yl_str(piece * 3),
+               "  var h = n / 2; h = h - h %% %d;" % plen,
+               "  var c = a[0..h] + a[h..n];",
+               "  var d = \"${a}\";",
+               "  var e = (a + \"#\").replace(\"#\", \"\");",
+               "  var f = \"${a[0..h]}${b[h..n]}\";",
+               "  var m = {a: n};",
+               "  for t in [b, c, d, e, f] { if !(a == t) || !(t == a) || !m.has_key(t) || t.len() != n { bad = bad + 1; if first == nil { first = n; } } }",
+               "}",
+               "print(bad); if first != nil { print(first); }"]
+        out.append("\n".join(src).replace("%%", "%"))
+    return out
+
+
+def live_volume_programs(top):
+    """Everything created stays alive; at 1000, 3000, 10000, ... up to `top` live strings, fresh contents are built by three routes and a
+    sample of the kept ones is built again."""
+    marks = []
+    m = 1000
+    while m <= top:
+        marks += [m, 3 * m]
+        m *= 10
+    marks = [x for x in marks if x <= top]
+    src = ["var keep = []; var bad = 0; var first = nil;",
+           "fn note(n) { bad = bad + 1; if first == nil { first = n; } }",
+           "fn probe(n) {",
+           "  var i = 0;",
+           "  while i < 300 {",
+           "    var a = \"fresh-${n}-${i}\"; var b = \"fresh-\" + String.from(n) + \"-\" + String.from(i); var c = (\"fresh-${n}#-${i}\").replace(\"#\", \"\");",
+           "    var m = {a: 1};",
+           "    if !(a == b) || !(b == c) || !(c == a) || !m.has_key(b) || !m.has_key(c) { note(n); }",
+           "    i = i + 1;",
+           "  }",
+           "  i = 0; var step = n / 200; if step == 0 { step = 1; }",
+           "  while i < n { if !(keep[i] == \"live-\" + String.from(i)) || !(keep[i] == \"live-${i}\") { note(n); } i = i + step; }",
+           "}",
+           "var i = 0;",
+           "for mark in [%s] {" % ", ".join(str(x) for x in marks),
+           "  while i < mark { keep.push(\"live-${i}\"); i = i + 1; }",
+           "  probe(mark);",
+           "}",
+           "print(bad); if first != nil { print(first); }"]
+    return ["\n".join(src)]
 
 
 def route_program(rng):
